@@ -68,14 +68,46 @@ def strip_comments(src):
         i += 1
     return ''.join(out)
 
-def audit_sources():
-    """grep the development for forbidden constructs.  Returns list of findings."""
-    bad = []
-    for d in ('Base', 'Gen', 'Model', 'Proofs', 'Props', 'Corr'):
-        dd = os.path.join(COQ, d)
-        if not os.path.isdir(dd):
+def closure_files(targets):
+    """.v files the given targets (e.g. Props/C05.vo) depend on, transitively (AP.* requires)."""
+    seen = []; todo = [t[:-1] if t.endswith('.vo') else t for t in targets]
+    while todo:
+        f = todo.pop()
+        if f in seen or not os.path.exists(os.path.join(COQ, f)):
             continue
-        for fn in sorted(os.listdir(dd)):
+        seen.append(f)
+        src = strip_comments(open(os.path.join(COQ, f), encoding='utf-8').read())
+        for sent in re.split(r'\.(?:\s+|$)', src):
+            toks = sent.split()
+            if 'Require' not in toks:
+                continue
+            from_ap = len(toks) >= 2 and toks[0] == 'From' and toks[1] == 'AP'
+            for tok in toks[toks.index('Require') + 1:]:
+                if tok in ('Import', 'Export'):
+                    continue
+                if tok.startswith('AP.'):
+                    tok = tok[3:]
+                elif not from_ap:
+                    continue
+                if re.fullmatch(r'(Base|Gen|Model|Proofs|Props|Corr)\.\w+', tok):
+                    todo.append(tok.replace('.', '/') + '.v')
+    return sorted(seen)
+
+def audit_sources(targets=None):
+    """grep the development (the dependency closure of `targets`, or everything) for forbidden
+    constructs.  Returns list of findings."""
+    bad = []
+    if targets:
+        files = [(os.path.dirname(f), os.path.basename(f)) for f in closure_files(targets)]
+    else:
+        files = []
+        for d in ('Base', 'Gen', 'Model', 'Proofs', 'Props', 'Corr'):
+            dd = os.path.join(COQ, d)
+            if os.path.isdir(dd):
+                files += [(d, fn) for fn in sorted(os.listdir(dd)) if fn.endswith('.v')]
+    for d, fn in files:
+        dd = os.path.join(COQ, d)
+        if True:
             if not fn.endswith('.v'):
                 continue
             src = strip_comments(open(os.path.join(dd, fn), encoding='utf-8').read())
